@@ -60,7 +60,8 @@ Grid ==
        /\ Chk(lastG = -1 \/ g - lastG = T.step, "C10 grid not uniform")
        /\ Chk(e.hasLevel = wantLevel, "C10 a level is stored exactly for non-closing instants not strictly inside a gap")
        /\ Chk((e.hasLevel /\ onRow) => Abs(e.lev - p2.z) <= T.tol, "C10 level at a measured instant differs from the measurement")
-       /\ Chk((e.hasLevel /\ between) =>
+       \* (a level stored inside a gap is already rejected above; its product would overflow 32 bits)
+       /\ Chk((e.hasLevel /\ between /\ ~inGap) =>
                 Abs(e.lev * (p2.t - p1.t) - (p1.z * (p2.t - p1.t) + (g - p1.t) * (p2.z - p1.z)))
                     <= T.tol * (p2.t - p1.t),
               "C10 level is not the linear interpolation of the bracketing measurements")
